@@ -8,7 +8,17 @@ ROOT = os.path.dirname(os.path.dirname(os.path.abspath(__file__)))
 
 
 def big(ctx):
-    return ctx['tier'] == 'thorough' or ctx.get('escalate')
+    return ctx['tier'] == 'thorough'
+
+
+def sz(ctx, quick, thorough):
+    """case budget: quick tier; 4x quick (capped) when a proof obligation / tie / slice broke and the failing-input
+    search is on; the thorough budget in the thorough tier"""
+    if ctx['tier'] == 'thorough':
+        return thorough
+    if ctx.get('escalate'):
+        return min(thorough, 4 * quick)
+    return quick
 
 
 def _finish(name, lines, descr, io, mo, diffs, dt, rule, nontrivial, dist=None, keep=30):
@@ -44,10 +54,10 @@ def _parse_dist(io):
 
 def slice_parse_tok(ctx):
     """G-tok: every token string over a 40-symbol alphabet up to length 3 (quick) / 4 (thorough)"""
-    n = 4 if big(ctx) else 3
+    n = sz(ctx, 3, 4)
     srcs = corpus_srcs('parse') + list(gens.tok_strings(n))
     rng = random.Random(f'{ctx["seed"]}/parse_tok')
-    srcs += list(gens.tok_strings_sample(rng, 400000 if big(ctx) else 30000, n + 1, n + 3))
+    srcs += list(gens.tok_strings_sample(rng, sz(ctx, 30000, 400000), n + 1, n + 3))
     lines = ['PARSE ' + hx(s) for s in srcs]
     io, mo, d, dt = corr.compare(lines)
     nontriv = [i for i, a in enumerate(io) if a.startswith('ok')]
@@ -63,7 +73,7 @@ def corpus_srcs(name):
 
 def slice_parse_rand(ctx):
     """grammar-directed random sentences, depth <= 8, and their one-token mutations; varied blanks"""
-    N = 250000 if big(ctx) else 15000
+    N = sz(ctx, 15000, 250000)
     srcs = []
     for i in range(N):
         rng = random.Random(f'{ctx["seed"]}/parse_rand/{i}')
@@ -83,10 +93,10 @@ def slice_parse_rand(ctx):
 def slice_lex_chars(ctx):
     """G-lex: every character string up to length 3 (quick) / 4 (thorough) over a 28-character alphabet,
     through LEX, NAMES and PARSE"""
-    n = 4 if big(ctx) else 3
+    n = sz(ctx, 3, 4)
     srcs = list(gens.char_strings(n))
     rng = random.Random(f'{ctx["seed"]}/lex_chars')
-    srcs += list(gens.char_strings_sample(rng, 200000 if big(ctx) else 20000, n + 1, 12))
+    srcs += list(gens.char_strings_sample(rng, sz(ctx, 20000, 200000), n + 1, 12))
     lines, descr = [], []
     for s in srcs:
         for c in ('LEX', 'NAMES', 'PARSE'):
@@ -123,7 +133,7 @@ def _prog_cases(ctx, tag, n, **kw):
 def slice_prog(ctx):
     """G-prog: type-directed programs over every node kind / statement form / builtin; compared: value with
     aliasing structure, names-after, error class, ops charged, probe log"""
-    N = 400000 if big(ctx) else 20000
+    N = sz(ctx, 20000, 400000)
     lines, srcs, kinds = _prog_cases(ctx, 'prog', N)
     cl = corpus_lines('eval')
     lines = cl + lines
@@ -139,7 +149,7 @@ def slice_prog(ctx):
 
 def slice_prog_budget(ctx):
     """C01: each program first at a large budget to learn its need K, then at N in {1,2,K-1,K,K+1,K+2, default}"""
-    N = 30000 if big(ctx) else 2500
+    N = sz(ctx, 2500, 30000)
     base, srcs, kinds = _prog_cases(ctx, 'budget', N, budget=100000, rand_ok=True)
     # programs that call lambdas supplied through ast_names (their body evaluations must be charged to the same budget)
     extra = gens2.scope_cases(ctx['seed'], N // 3)
@@ -181,50 +191,50 @@ def _eval_slice(name, cases, rule, nontriv_pred=None):
 
 def slice_ops(ctx):
     """G-ops: container operation sequences (C14, C03)"""
-    cases = gens2.ops_cases(ctx['seed'], 60000 if big(ctx) else 3000, 3 if big(ctx) else 2, big_every=40)
+    cases = gens2.ops_cases(ctx['seed'], sz(ctx, 3000, 60000), sz(ctx, 2, 3), big_every=40)
     return _eval_slice('ops', cases, 'list/dict operation sequences: exhaustive to depth 2 (quick) / 3 (thorough) over 10 ops x start '
                        'lengths {0,2}, random sequences to length 25, start lengths incl. 9998..10001; non-trivial = evaluated (distinct)')
 
 
 def slice_num(ctx):
-    cases = gens2.num_cases(ctx['seed'], 300000 if big(ctx) else 20000)
+    cases = gens2.num_cases(ctx['seed'], sz(ctx, 20000, 300000))
     return _eval_slice('num', cases, 'numeric expression trees over literals of 1..40 digits (forced ties at the 28th digit), host ints / '
                        'bools / Decimals with exponents to +-999990, every operator, compound assignment and numeric builtin')
 
 
 def slice_probe(ctx):
-    cases = gens2.probe_cases(ctx['seed'], 200000 if big(ctx) else 15000)
+    cases = gens2.probe_cases(ctx['seed'], sz(ctx, 15000, 200000))
     return _eval_slice('probe', cases, 'expression shapes with a host probe at every leaf (and/or/if-else, operators, call arguments, list / '
                        'dict / slice parts, index-assignment parts) under random truthy / falsy / raising probe tables; compared: '
                        'ordered probe log, value, error class', lambda a: 'log (p' in a)
 
 
 def slice_scope(ctx):
-    cases = gens2.scope_cases(ctx['seed'], 100000 if big(ctx) else 8000)
+    cases = gens2.scope_cases(ctx['seed'], sz(ctx, 8000, 100000))
     return _eval_slice('scope', cases, 'one name bound at builtin / host / top-level / parameter level, lambda bodies that read, assign, '
                        'compound-assign or raise, called via apply / map / sorted / reduce / try_apply / recursion')
 
 
 def slice_alias(ctx):
-    cases = gens2.alias_cases(ctx['seed'], 100000 if big(ctx) else 8000)
+    cases = gens2.alias_cases(ctx['seed'], sz(ctx, 8000, 100000))
     return _eval_slice('alias', cases, 'all assignment forms from host objects with internal sharing, then mutations through either side; '
                        'values compared with aliasing structure')
 
 
 def slice_builtin_args(ctx):
     names = list(sqimpl.load().functions.FUNCTIONS.keys())
-    cases = gens2.builtin_cases(ctx['seed'], names, 60000 if big(ctx) else 4000)
+    cases = gens2.builtin_cases(ctx['seed'], names, sz(ctx, 4000, 60000))
     return _eval_slice('builtin_args', cases, 'every entry of FUNCTIONS x argument shapes (0 args, every single shape, 8x8 pairs exhaustive; '
                        'random 2..4-tuples; callbacks); result and the arguments afterwards compared (aliasing-aware)')
 
 
 def slice_rand(ctx):
-    cases = gens2.rand_cases(ctx['seed'], 40000 if big(ctx) else 4000)
+    cases = gens2.rand_cases(ctx['seed'], sz(ctx, 4000, 40000))
     return _eval_slice('rand', cases, 'rand() / rand(a,b) / rand(list) / shuffle(list) with the deterministic stand-in for `random` on both sides')
 
 
 def slice_regex(ctx):
-    cases = gens2.regex_cases(ctx['seed'], 30000 if big(ctx) else 3000)
+    cases = gens2.regex_cases(ctx['seed'], sz(ctx, 3000, 30000))
     return _eval_slice('regex', cases, 'the three regex builtins x argument / flag shapes; the engine\'s answers are fed to the model')
 
 
@@ -261,7 +271,7 @@ def _sessions(ctx, tag, n, caches, texts=None, evals_only=False):
 
 def slice_session(ctx):
     """G-hist without cache (C11)"""
-    lines, descr = _sessions(ctx, 'hist', 20000 if big(ctx) else 1500, ['none'])
+    lines, descr = _sessions(ctx, 'hist', sz(ctx, 1500, 20000), ['none'])
     io, mo, _, dt = corr.compare(lines)
     d = _session_cmp(lines, io, mo)
     return _finish('session', lines, descr, io, mo, d, dt,
@@ -274,7 +284,7 @@ def slice_session(ctx):
 def slice_session_cache(ctx):
     """G-hist x cache kinds (C17): a disagreement counts only if the same history WITHOUT cache agrees
     (otherwise it is C11's business)"""
-    lines, descr = _sessions(ctx, 'histc', 16000 if big(ctx) else 1200, ['dict', 'lru2', 'evict'])
+    lines, descr = _sessions(ctx, 'histc', sz(ctx, 1200, 16000), ['dict', 'lru2', 'evict'])
     io, mo, _, dt = corr.compare(lines)
     d0 = _session_cmp(lines, io, mo)
     d = []
@@ -295,7 +305,7 @@ import layoutgen
 
 def slice_layout(ctx):
     """G-layout: plain vs decorated rendering of the same program, both through PARSE on both sides"""
-    N = 150000 if big(ctx) else 10000
+    N = sz(ctx, 10000, 150000)
     srcs = []
     kinds = {}
     for i in range(N):
@@ -317,7 +327,7 @@ def slice_layout(ctx):
 
 def slice_errmsg(ctx):
     """erroneous texts: stray token / truncation in multi-line programs; PARSE output incl. offending position and message"""
-    N = 300000 if big(ctx) else 20000
+    N = sz(ctx, 20000, 300000)
     srcs = []
     for i in range(N):
         r = random.Random(f'{ctx["seed"]}/errmsg/{i}')
@@ -333,7 +343,7 @@ def slice_errmsg(ctx):
 
 def slice_names(ctx):
     """NAMES over program texts (every syntactic role), %...% names, names next to strings / comments / keywords, invalid texts"""
-    N = 120000 if big(ctx) else 10000
+    N = sz(ctx, 10000, 120000)
     srcs = []
     for i in range(N):
         r = random.Random(f'{ctx["seed"]}/names/{i}')
@@ -360,7 +370,7 @@ def slice_names(ctx):
 def slice_malformed(ctx):
     """C16: arbitrary strings, truncations at every character, unbalanced brackets, unterminated strings through PARSE and NAMES;
     programs failing in each listed way through EVAL (error class compared)"""
-    N = 60000 if big(ctx) else 6000
+    N = sz(ctx, 6000, 60000)
     lines, descr = [], []
     for i in range(N):
         r = random.Random(f'{ctx["seed"]}/malformed/{i}')
@@ -404,7 +414,7 @@ def slice_malformed(ctx):
 def slice_session_scope(ctx):
     """C10: sequences of evals of VALID texts only (so nothing here depends on error recovery), with and without a names
     mapping: top-level assignments must land in the caller's mapping (or vanish with names=None), never in the builtins"""
-    lines, descr = _sessions(ctx, 'histscope', 8000 if big(ctx) else 700, ['none'], texts=list(histgen.VALID), evals_only=True)
+    lines, descr = _sessions(ctx, 'histscope', sz(ctx, 700, 8000), ['none'], texts=list(histgen.VALID), evals_only=True)
     io, mo, _, dt = corr.compare(lines)
     d = _session_cmp(lines, io, mo)
     return _finish('session_scope', lines, descr, io, mo, d, dt,
@@ -415,7 +425,7 @@ def slice_session_scope(ctx):
 def slice_name_lookup(ctx):
     """C18: programs whose names are %...% lexemes with dots / spaces / operators while PARTS of those names are bound by
     the host: evaluation may ask the host only for the names list_names reports"""
-    N = 30000 if big(ctx) else 3000
+    N = sz(ctx, 3000, 30000)
     cases = []
     for i in range(N):
         r = random.Random(f'{ctx["seed"]}/namelookup/{i}')
